@@ -5,6 +5,8 @@ ALL = ["C%02d" % i for i in range(1, 21)]
 technique = "bounded symbolic execution of the real go/ssa of /repo (own engine gosym) with SMT (z3 5.1.0) deciding every assertion / panic / branch over all inputs within the stated bounds; counterexamples replayed natively against the real build"
 level_note = "trusted: go/packages+go/ssa faithful to the compiler; the gosym interpreter and its intrinsics (listed in the evidence); z3; per-property stubs listed in the evidence; bounds as stated in evidence.coverage.bounds"
 claimed = {
+ "C11": "wiring level: producer with 2 commands x up to 2 variations, each executed command printing arbitrary symbolic bytes; through the real TaskRunner.Run/execute/storeTaskOutput, TaskOutput and io.MultiWriter: captured output == concatenation in execution order, each command sees the previous command's output as .Output, a later task's environment holds exactly that text under <NAME>_OUTPUT (symbolic printable-ASCII names, sanitising checked per byte) or exportAs, nothing handed on when the producer failed hard",
+ "C13": "wiring level with a symbolic clock: every job of a task with a timeout (before hook, commands, after hook) carries it; each Execute derives a fresh deadline of the full symbolic duration after the previous command finished; an overrun (deadline error) in a command or before hook fails the task and starts nothing further, also with allow_failure; an overrunning after hook does not fail the task; commands within their deadline are unaffected",
  "C08": "three stages sharing one task (different env / variables / dir overrides) in four dependency arrangements through the real buildTask, buildPipeline, Scheduler.Schedule and runStage in thread mode, then a second pipeline and a direct-run view: every stage's Run sees the task's own settings overlaid with exactly its own overrides, for all values, and the shared task is unchanged afterwards",
  "C14": "real ExecutionContext.Up/Before/After/Down, contextForTask, TaskRunner.Run and Finish with a recording executor stub and symbolic outcomes for every context and task command: up first and once, exactly one context-before block before and one context-after block after each task execution (also when it fails), nothing runs for a context whose up failed and Run reports an error, down exactly once and only for used contexts; two simultaneous runs on a fresh context under every interleaving (sync.Once); the CLI reaches Finish whether the target succeeded or failed",
  "C12": "thread-mode exploration of the real TaskRunner.Run / Cancel protocol (RWMutex, WaitGroup/channel, context) with 0..3 concurrent runs and Cancel called once or twice, every interleaving at visible operations (preemption-unbounded for <=1 run, bound 3 for 2, bound 1 for 3), symbolic command outcomes: no panic, no deadlock (Cancel and every Run return), no command starts after Cancel returned, interrupted / late runs report an error",
